@@ -192,6 +192,12 @@ EncUnconnectedSend(prio, ticks, msg, route) ==
    <<82>> \o EncEPATH(CMPath) \o <<prio, ticks>> \o U16(Len(msg)) \o PadEven(msg) \o EncEPATHpad(route)
 
 \* A complete SendRRData request frame carrying CIP message `msg': bare ("simple") or wrapped with a route path
+\* List Identity reply item (0x000C): protocol version, socket address (network byte order), Identity attributes 1..7, state
+BE16(v) == << (v \div 256) % 256, v % 256 >>
+EncIdentityItem(x) == EncCPFItem(12, U16(x.version) \o BE16(x.family) \o BE16(x.port) \o x.addr \o Zeros(8) \o U16(x.vendor) \o U16(x.devtype)
+                                     \o U16(x.product) \o U16(x.revision) \o U16(x.status) \o x.serial \o <<Len(x.name)>> \o x.name \o <<x.state>>)
+\* List Services reply item (0x0100): version, capability flags, NUL-terminated service name
+EncServicesItem(x) == EncCPFItem(256, U16(x.version) \o U16(x.capability) \o x.name \o <<0>>)
 RRFrame(sess, ctx, timeout, cip) == EncEnip(CmdSendRR, sess, 0, ctx, 0, EncSendData(timeout, <<NullAddr, UnconnData(cip)>>))
 
 \* total length of the frame starting at offset `at' (0-based) of an octet stream, if its header is complete
